@@ -119,6 +119,8 @@ use crate::common::headers;
 pub use self::router::{EndpointHandler, HttpRoutes, RouteError};
 pub use crate::common::headers::{Encoding, Headers, MediaType};
 pub use crate::common::{Body, HttpHeaderError, Method, Version};
+#[cfg(feature = "micro_http_verif")]
+pub use crate::connection::VERIF_BUFFER_SIZE;
 pub use crate::connection::{ConnectionError, HttpConnection};
 pub use crate::request::{Request, RequestError};
 pub use crate::response::{Response, ResponseHeaders, StatusCode};
